@@ -217,13 +217,20 @@ def run_kani_batched(ov, filters, jobs, harness_timeout, total_timeout, extra, j
     t0 = time.time()
     merged = None
     rc_all = 0
-    nb = (len(names) + batch - 1) // batch
-    size = (len(names) + nb - 1) // nb
-    for k in range(nb):
-        part = names[k * size:(k + 1) * size]
+    # the clean_up harnesses (c10*) need ~5 GB of CBMC memory each: they get batches of their own, 6 at a time
+    heavy = [n for n in names if n.startswith("c10")]
+    light = [n for n in names if not n.startswith("c10")]
+    parts = []
+    if light:
+        nb = (len(light) + batch - 1) // batch
+        size = (len(light) + nb - 1) // nb
+        parts += [(light[k * size:(k + 1) * size], jobs) for k in range(nb)]
+    if heavy:
+        parts += [(heavy[k:k + 24], min(jobs, 6)) for k in range(0, len(heavy), 24)]
+    for k, (part, pj) in enumerate(parts):
         jk = json_out + f".{k}"
         left = max(60, total_timeout - (time.time() - t0))
-        rc, _ = run_kani(ov, part, jobs, harness_timeout, left, extra, jk, log_path + f".{k}", mem_gb)
+        rc, _ = run_kani(ov, part, pj, harness_timeout, left, extra, jk, log_path + f".{k}", mem_gb)
         with open(log_path, "a") as lf:
             lf.write(open(log_path + f".{k}").read())
         rc_all = rc_all or rc
